@@ -559,6 +559,13 @@ class G:
         return out.name
 
     def finish(self, outputs, family, klass, tol=0):
+        if getattr(self, "minmax", False):
+            # the real-valued range next to scale / zero point, as converters write it (min / max of the quantisation table): per-tensor quantised activations only
+            for t in self.net.tensors:
+                if t.data is None and t.scale is not None and len(t.scale) == 1 and t.dtype.name in DT_RANGE and t.zp is not None:
+                    lo, hi = DT_RANGE[t.dtype.name]
+                    t.qmin = [float(np.float32(t.scale[0] * (lo - t.zp[0])))]
+                    t.qmax = [float(np.float32(t.scale[0] * (hi - t.zp[0])))]
         self.net.outputs = list(outputs)
         self.net.info = dict(family=family, klass=klass, tol=tol, kinds=sorted(set(self.kinds)), dtype=self.dtype)
         return self.net
@@ -1003,6 +1010,7 @@ def fam_alias_stress(seed):
 def fam_cpu_mix(seed):
     r = rng_for("cpu-mix", seed)
     g = G(r, "int8")
+    g.minmax = seed % 2 == 0  # half of the networks carry min / max in their quantisation tables
     h, w, c = int(r.choice([4, 8, 12])), int(r.choice([4, 8, 12])), int(r.choice([4, 8, 16]))
     x = g.input([1, h, w, c])
     extra_in = None
@@ -1098,6 +1106,19 @@ def fam_cpu_mix(seed):
             x = g.unary("relu", x)
         else:
             x = g.unary(str(r.choice(["logistic", "tanh"])), x)
+    if seed % 4 == 1 and len(g.T(x).shape) == 4 and g.T(x).dtype.name == "int8":
+        # a variable (persistent state) tensor read by one CPU operator in the middle of the network, with accelerated and CPU operators after its last use: its
+        # arena bytes are its own for the whole inference.  Own random stream, drawn after everything else: the rest of the network is what it always was.
+        r2 = rng_for("cpu-mix-variable", seed)
+        X = g.T(x)
+        vname = g.name("state")
+        V = g.net.add_t(vname, list(X.shape), "int8", [X.scale[0]], [X.zp[0]])
+        V.is_variable = True
+        x = g.cpu_op(x, "floor_div", other=vname)
+        for _ in range(int(r2.integers(2, 5))):
+            x = g.conv(x, int(r2.choice([4, 8, 16])), int(r2.choice([1, 3])) if min(g.T(x).shape[1:3]) >= 3 else 1, 1, PAD_SAME, 0)
+            if r2.integers(0, 2):
+                x = g.cpu_op(x, str(r2.choice(["neg", "custom", "reverse"])))
     outs.append(x)
     consumed = set(i for o in g.net.ops for i in o.inputs)
     for i in list(g.net.inputs):
@@ -1177,9 +1198,32 @@ def fam_shape_ops(seed):
     reshapes, concatenation writes or read offsets, so the tensors on both sides must keep denoting the same bytes.  Exact class."""
     r = rng_for("shape-ops", seed)
     g = G(r, str(r.choice(["int8", "int8", "uint8", "int16"])))
-    t = int(r.integers(0, 6))
+    t = int(r.integers(0, 9))
     c = int(r.choice([4, 8, 16, 5, 24]))
     act = int(r.choice([ACT_NONE, ACT_RELU]))
+    if t >= 6:
+        # both operands of a binary elementwise operator are parts of one SPLIT / SPLIT_V / UNPACK result (each operand carries its own read offset); in a third
+        # of the cases one more part is handed to an operator that stays on the CPU (the accelerated split must still produce that part)
+        h, w = int(r.choice([2, 4, 6])), int(r.choice([2, 4, 8]))
+        ax = int(r.choice([1, 2, 3, 3]))
+        n = int(r.choice([2, 3, 4]))
+        dims = [1, h, w, c]
+        if t == 8:
+            sizes = [int(v) for v in r.integers(1, 5, n)]
+            sizes[1] = sizes[0]
+        else:
+            sizes = [int(r.choice([1, 2, 4, 8]))] * n
+        dims[ax] = sum(sizes)
+        x = g.conv(g.input(dims), dims[3], 1, 1, PAD_SAME, act)
+        parts = g.split_v(x, sizes, ax) if t == 8 else g.split(x, n, ax)
+        kind = str(r.choice(["add", "sub", "mul", "add"]))
+        a_, b_ = (parts[0], parts[1]) if r.integers(0, 2) else (parts[1], parts[0])
+        y = g.eltwise(kind, a_, b_, act)
+        outs = [g.conv(y, int(r.choice([4, 8])), 1, 1, PAD_SAME, ACT_NONE) if r.integers(0, 2) else y]
+        for p_ in parts[2:]:
+            k_ = int(r.integers(0, 3))
+            outs.append(g.cpu_op(p_, str(r.choice(["custom", "neg", "reverse"]))) if k_ == 0 else g.unary("relu", p_) if k_ == 1 else g.eltwise("add", p_, parts[0]) if g.T(p_).shape == g.T(parts[0]).shape else g.unary("relu6", p_))
+        return g.finish(outs, "shape-ops", "exact")
     if t == 0:
         # squeeze a unit height away, work on the 3D tensor, expand it again at another position
         w = int(r.choice([4, 8, 12, 33]))
